@@ -210,6 +210,13 @@ class AGen:
 ALTERED = []
 
 
+def scal_in_prod(t):
+    """some Product node of the tree has a ScalarMul factor"""
+    if t["k"] == "Prod" and any(m["k"] == "Scal" for m in t["ms"]):
+        return True
+    return any(scal_in_prod(y) for y in (t.get("ms") or ([t["a"]] if isinstance(t.get("a"), dict) else [])))
+
+
 def build(an):
     """annotated node -> cola operator built with constructors + declaration wrappers"""
     import cola
@@ -588,7 +595,10 @@ def run(ctx):
             continue
         bad = []
         if not c["dense_ok"]:
-            bad.append("declaring annotations changed the represented matrix")
+            if "scalar_keeps_annotations" in present and scal_in_prod(c["tree"]):
+                attributed += 1      # recorded finding: c*A keeps A's annotations, the untrue SelfAdjoint then misleads the left-product shortcut
+            else:
+                bad.append("declaring annotations changed the represented matrix")
         if c.get("altered"):
             bad.append("declaring altered the operator it was applied to: " + c["altered"][0])
         for cc, b in untrue:
